@@ -5,6 +5,30 @@
 
 include!(concat!(env!("OUT_DIR"), "/glue.rs"));
 
+/// The table's count of occupied slots (`usize::MAX` when the implementation no longer exposes one).
+#[cfg(verif_tt_occupied)]
+#[macro_export]
+macro_rules! tt_occ {
+    ($t:expr) => {
+        ($t.occupied as usize)
+    };
+}
+#[cfg(not(verif_tt_occupied))]
+#[macro_export]
+macro_rules! tt_occ {
+    ($t:expr) => {{
+        let _ = &$t;
+        usize::MAX
+    }};
+}
+/// "No slot is occupied" by the counter if there is one, by the fill indicator otherwise.
+#[macro_export]
+macro_rules! tt_empty {
+    ($t:expr) => {
+        (if $crate::tt_occ!($t) == usize::MAX { ($t.occupancy() as usize) == 0 } else { $crate::tt_occ!($t) == 0 })
+    };
+}
+
 mod hooks;
 pub use hooks::{verif_hooks, verif_shim};
 
